@@ -3,7 +3,7 @@
    and rendering of the model's and the Spec's results in the harness's canonical line format
    (harness/src/cmd/cenc.rs, cresp.rs). Not used by any theorem. *)
 From Coq Require Import NArith List Bool Arith String Ascii.
-From Rodbus Require Import Base.Show Base.Outcome Base.Cursor Base.ClientTypes Model.Format Model.ClientRequest
+From Rodbus Require Import Base.Show Base.Outcome Base.Cursor Base.ClientTypes Model.Format Model.Range Model.ClientRequest Model.ClientPaths Model.ClientSession
   Spec.ClientCodecSpec Gen.ClientTables.
 Import ListNotations.
 Local Open Scope string_scope.
@@ -51,8 +51,29 @@ Definition show_err (e : req_err) : string :=
   | EException ex => "Exception(" ++ show_N (u8_of_excode ex) ++ ")"
   end.
 
-(* ---- C03: (tcp?, kind, tx, unit, start, count/value, values) ---- *)
-Definition enc_case := (bool * N * N * N * N * N * vals)%type.
+(* ---- submit style of the harness: 0 = Channel (async), 1 = CallbackSession, 2 = FfiChannel ---- *)
+Definition path_of (style : N) : path := match style with 0 => ViaChannel | 1 => ViaCallback | _ => ViaFfi end.
+(* the harness's token for a call that did not reach the task: the flat error name; for a failed
+   synchronous FfiChannel read call `<returned>/<what the callback received, - if never called>` *)
+Definition show_rejection (ffi_read : bool) (rj : rejection) : string :=
+  let comp c := match c with CErr e => show_err e | CShutdown => "Shutdown" end in
+  match rj_returned rj, rj_completion rj with
+  | Some e, None => if ffi_read then show_err e ++ "/-" else show_err e
+  | Some e, Some c => show_err e ++ "/" ++ comp c
+  | None, Some c => comp c
+  | None, None => "?"
+  end.
+Definition is_ffi_read (style kind : N) : bool := (style =? 2) && (1 <=? kind) && (kind <=? 4).
+
+(* The harness builds a read range either as a struct literal (lit = true: the pair goes to the API
+   as it is) or with AddressRange::try_from (lit = false): when try_from fails the user has no
+   range to submit and the harness prints that error, whatever the submit style. *)
+Definition user_range_error (lit : bool) (kind s c : N) : option req_err :=
+  if lit || negb ((1 <=? kind) && (kind <=? 4)) then None
+  else match try_from s c with inl e => Some (of_range_err e) | inr _ => None end.
+
+(* ---- C03: (tcp?, literal?, style, kind, tx, unit, start, count/value, values) ---- *)
+Definition enc_case := (bool * bool * N * N * N * N * N * N * vals)%type.
 Definition framing_of (tcp : bool) : framing := if tcp then Tcp else Rtu.
 
 Definition show_submit (o : outcome req_err (list N)) (wire : list (list N)) : string :=
@@ -65,13 +86,28 @@ Definition both (model spec : string) : string :=
   model ++ "|" ++ (if String.eqb model spec then "=" else spec).
 
 Definition run_enc (x : enc_case) : string :=
-  let '(tcp, kind, tx, uid, s, c, v) := x in
+  let '(tcp, lit, style, kind, tx, uid, s, c, v) := x in
   let call := mk_call kind s c v in
   let f := framing_of tcp in
-  both (show_submit (client_submit f tx uid call) (submit_wire f tx uid call))
+  both (match user_range_error lit kind s c with
+        | Some e => show_err e ++ " -"
+        | None =>
+        match submit_via (path_of style) call with
+        | Queued r => show_submit (client_encode f tx uid r) (snd (transmit f tx uid r))
+        | Rejected rj => show_rejection (is_ffi_read style kind) rj ++ " -"
+        end end)
        (if within_limits_b call
         then "SENT " ++ show_bytes (if tcp then ref_encode_tcp tx uid call else ref_encode_rtu uid call)
         else "REJECT").
+
+(* ---- C03 over a session: (tcp?, [(style, kind, unit, start, count/value, values)]) with struct-literal
+   ranges; the whole wire log of the model and of the Spec ---- *)
+Definition session_case := (bool * list (N * N * N * N * N * vals))%type.
+Definition run_session_case (x : session_case) : string :=
+  let '(tcp, l) := x in
+  let calls := map (fun y => let '(style, kind, uid, s, c, v) := y in (path_of style, uid, mk_call kind s c v)) l in
+  both (show_list show_bytes "+" (session_wire (framing_of tcp) 0 calls))
+       (show_list show_bytes "+" (ref_session_wire tcp 0 (map (fun z => (snd (fst z), snd z)) calls))).
 
 (* ---- C04: (kind, start, count/value, reply pdu); the request is built as the API builds it.
    The PDU is passed as (length, big-endian number) - one hexadecimal literal parses much faster
@@ -79,7 +115,7 @@ Definition run_enc (x : enc_case) : string :=
 Fixpoint bytes_of_aux (len : nat) (x : N) (acc : list N) : list N :=
   match len with O => acc | S l => bytes_of_aux l (N.shiftr x 8) (N.land x 255 :: acc) end.
 Definition bytes_of (len : nat) (x : N) : list N := bytes_of_aux len x [].
-Definition resp_case := (N * N * N * (nat * N))%type.
+Definition resp_case := (bool * N * N * N * N * (nat * N))%type.   (* literal?, style, kind, start, count/value, pdu *)
 
 Definition show_hex4 (v : N) : string := show_byte (v / 256) ++ show_byte (v mod 256).
 Fixpoint show_bits (l : list (N * bool)) : string :=
@@ -105,13 +141,16 @@ Definition show_response (r : response) : string :=
   end.
 
 Definition run_resp (x : resp_case) : string :=
-  let '(kind, s, c, (plen, pnum)) := x in
+  let '(lit, style, kind, s, c, (plen, pnum)) := x in
   let pdu := bytes_of plen pnum in
   let call := mk_call kind s c (Seed 0 c) in
-  match build call with
-  | Ok r =>
+  match user_range_error lit kind s c with
+  | Some e => "REJECTED " ++ show_err e ++ "|REJECTED"
+  | None =>
+  match submit_via (path_of style) call with
+  | Queued r =>
       both
-      (match handle_response r pdu with
+      (match deliver_via (path_of style) r pdu with
        | Ok v => show_response v
        | Err e => "ERR " ++ show_err e
        | Panic => "PANIC"
@@ -123,6 +162,5 @@ Definition run_resp (x : resp_case) : string :=
                  | None => "ERR other"
                  end
        end)
-  | Err e => "REJECTED " ++ show_err e ++ "|REJECTED"
-  | Panic => "PANIC|REJECTED"
-  end.
+  | Rejected rj => "REJECTED " ++ show_rejection (is_ffi_read style kind) rj ++ "|REJECTED"
+  end end.
